@@ -854,6 +854,86 @@ def _table_provenance_module(repo, m, expr, depth, seen):
     return tabs, sorted_seen
 
 
+def _method_memo(repo, clause, fn, counts, norm_guards):
+    """(c') a query method that memoises its result on the object: an attribute written under a "not computed yet" test on itself and returned.  The attribute may be
+    unknown to the constructor or initialised there to None - either way nothing resets it when the plain attributes it was computed from are re-assigned from outside
+    (`obj.cell = ...`), edited in place, or carried along by copy()."""
+    obs = []
+    if fn.cls is None or fn.name == "__init__" or any((dotted(d) or "") == "property" for d in fn.node.decorator_list):
+        return obs
+    init = repo.maybe_fn("%s.__init__" % fn.cls) if isinstance(fn.cls, str) else None
+    if init is None:
+        return obs
+    for st in [x for x in fn.own_nodes() if isinstance(x, ast.Assign) and len(x.targets) == 1 and isinstance(x.targets[0], ast.Attribute)
+               and isinstance(x.targets[0].value, ast.Name) and x.targets[0].value.id == "self"]:
+        attr = st.targets[0].attr
+        def _self_attr(e):
+            return isinstance(e, ast.Attribute) and e.attr == attr and isinstance(e.value, ast.Name) and e.value.id == "self"
+        # "not computed yet" test on the attribute itself: `self.a is None`, `not hasattr(self, 'a')`, `self.a is _UNSET`
+        guarded = False
+        for t, pol, k in norm_guards(fn, st):
+            if isinstance(t, ast.Compare) and len(t.ops) == 1 and isinstance(t.ops[0], (ast.Is, ast.IsNot, ast.Eq, ast.NotEq)) and (_self_attr(t.left) or _self_attr(t.comparators[0])):
+                guarded = True
+            if isinstance(t, ast.Call) and call_name(t) == "hasattr" and len(t.args) == 2 and const_value(t.args[1]) == attr:
+                guarded = True
+        returned = any(isinstance(r_, ast.Return) and r_.value is not None and any(_self_attr(y) for y in ast.walk(r_.value)) for r_ in fn.own_nodes())
+        sources = sorted({y.attr for y in ast.walk(st.value) if isinstance(y, ast.Attribute) and isinstance(y.value, ast.Name) and y.value.id == "self" and y.attr != attr})
+        # a reset that can work: a property setter / __setattr__ of a source that re-initialises the memo
+        reset_by_setter = False
+        for g in repo.all_fns():
+            if g.cls == fn.cls and (g.name == "__setattr__" or any((dotted(d) or "").endswith(".setter") for d in g.node.decorator_list)):
+                if any(isinstance(x, ast.Assign) and any(_self_attr(t) for t in x.targets) for x in g.own_nodes()):
+                    reset_by_setter = True
+        if guarded and returned and sources and not reset_by_setter:
+            counts["cache"] += 1
+            obs.append(Ob("G7", clause, fn, st, False,
+                          "%s memoises its answer in `self.%s` (computed from self.%s the first time only) and no setter of that attribute resets it: after `obj.%s = ...` or an in-place edit the method "
+                          "keeps returning the answer for the OLD value - and copy() carries the stale memo along" % (fn.qualname, attr, ", self.".join(sources), sources[0]),
+                          slot="method-memo:%s" % fn.qualname, positive="robust"))
+    return obs
+
+
+def _raw_method_memo(repo, clause, counts):
+    """The same memo shape on methods that are NEW (not in the reference function list): those are folded into their callers at parse time, so they are looked for in the
+    raw source of mofun/atoms.py: `if <self.A not computed yet>: self.A = f(self.B ...)` ... `return self.A`."""
+    obs = []
+    m = repo.modules.get("mofun.atoms")
+    if m is None:
+        return obs
+    try:
+        raw = ast.parse(m.src)
+    except SyntaxError:
+        return obs
+    known = {q for (mod, q) in repo.fns if mod == "mofun.atoms"}
+    for c in [n for n in raw.body if isinstance(n, ast.ClassDef)]:
+        setters = [g for g in c.body if isinstance(g, ast.FunctionDef) and (g.name == "__setattr__" or any((dotted(d) or "").endswith(".setter") for d in g.decorator_list))]
+        for g in [g for g in c.body if isinstance(g, ast.FunctionDef)]:
+            q = "%s.%s" % (c.name, g.name)
+            if q in known or g.name == "__init__":
+                continue
+            for iff in [n for n in ast.walk(g) if isinstance(n, ast.If)]:
+                for st in [x for x in iff.body if isinstance(x, ast.Assign) and len(x.targets) == 1 and isinstance(x.targets[0], ast.Attribute)
+                           and isinstance(x.targets[0].value, ast.Name) and x.targets[0].value.id == "self"]:
+                    attr = st.targets[0].attr
+                    def _sa(e):
+                        return isinstance(e, ast.Attribute) and e.attr == attr and isinstance(e.value, ast.Name) and e.value.id == "self"
+                    t = iff.test
+                    while isinstance(t, ast.UnaryOp) and isinstance(t.op, ast.Not):
+                        t = t.operand
+                    guarded = (isinstance(t, ast.Compare) and len(t.ops) == 1 and (_sa(t.left) or _sa(t.comparators[0]))) or \
+                        (isinstance(t, ast.Call) and call_name(t) == "hasattr" and len(t.args) == 2 and const_value(t.args[1]) == attr)
+                    returned = any(isinstance(r_, ast.Return) and r_.value is not None and any(_sa(y) for y in ast.walk(r_.value)) for r_ in ast.walk(g))
+                    sources = sorted({y.attr for y in ast.walk(st.value) if isinstance(y, ast.Attribute) and isinstance(y.value, ast.Name) and y.value.id == "self" and y.attr != attr})
+                    reset = any(isinstance(x, ast.Assign) and any(_sa(t_) for t_ in x.targets) for s_ in setters for x in ast.walk(s_))
+                    if guarded and returned and sources and not reset:
+                        counts["cache"] += 1
+                        obs.append(Ob("G7", clause, FileObj(m.relpath, q), st, False,
+                                      "new method %s memoises its answer in `self.%s` (computed from self.%s the first time only) and no setter of that attribute resets it: after `obj.%s = ...` "
+                                      "(replicate, a user assigning a new cell) or an in-place edit the method keeps returning the answer for the OLD value" % (q, attr, ", self.".join(sources), sources[0]),
+                                      slot="method-memo:%s" % q, positive="robust"))
+    return obs
+
+
 def G7_api_contract_pitfalls(repo, clause, scope=ALL_LIB):
     """Contracts of library calls and small arithmetic idioms that are wrong only at a boundary:
     (a) the insertion point returned by bisect_left / bisect_right / np.searchsorted may equal len(list): using it as an index without a bound check
@@ -866,7 +946,14 @@ def G7_api_contract_pitfalls(repo, clause, scope=ALL_LIB):
     fns = _scope_fns(repo, scope)
     counts = {"bisect": 0, "span": 0, "cache": 0, "truth": 0}
     from .common import norm_guards
-    for fn in fns:
+    # query methods of the Atoms class are reachable from every property's anchors (every anchored function handles Atoms objects): their memo discipline is examined whatever the scope
+    in_scope = {id(f) for f in fns}
+    memo_only = [f for f in repo.all_fns() if f.cls is not None and f.module.name == "mofun.atoms" and id(f) not in in_scope]
+    obs.extend(_raw_method_memo(repo, clause, counts))
+    for fn in list(fns) + memo_only:
+        if id(fn) not in in_scope:
+            obs.extend(_method_memo(repo, clause, fn, counts, norm_guards))
+            continue
         # (c) decorators
         for d in fn.node.decorator_list:
             nm = dotted(d.func) if isinstance(d, ast.Call) else dotted(d)
@@ -883,32 +970,7 @@ def G7_api_contract_pitfalls(repo, clause, scope=ALL_LIB):
                           "property %s %s" % (fn.qualname, "is recomputed from its source arrays on every access" if not stores else
                                               "STORES `%s` on the object: the cached value survives in-place edits of the arrays it was computed from (retyping an atom, then searching again, still sees the old elements)" % ast.unparse(stores[0])[:50]),
                           construct=None if stores else "@property def %s" % fn.name, slot="property-cache:%s" % fn.qualname, positive=True))
-        # (c') a query method that memoises its result on the object (an attribute the constructor does not know, written under a "not computed yet" test on itself)
-        if fn.cls is not None and fn.name != "__init__" and not any((dotted(d) or "") == "property" for d in fn.node.decorator_list):
-            init = repo.maybe_fn("%s.__init__" % fn.cls) if isinstance(fn.cls, str) else None
-            init_attrs = set()
-            if init is not None:
-                for x in init.own_nodes():
-                    for t in (x.targets if isinstance(x, ast.Assign) else ([x.target] if isinstance(x, (ast.AugAssign, ast.AnnAssign)) else [])):
-                        for y in ast.walk(t):
-                            if isinstance(y, ast.Attribute) and isinstance(y.value, ast.Name) and y.value.id == "self":
-                                init_attrs.add(y.attr)
-            if init is not None:
-                for st in [x for x in fn.own_nodes() if isinstance(x, ast.Assign) and len(x.targets) == 1 and isinstance(x.targets[0], ast.Attribute)
-                           and isinstance(x.targets[0].value, ast.Name) and x.targets[0].value.id == "self" and x.targets[0].attr not in init_attrs]:
-                    attr = st.targets[0].attr
-                    guarded = any(attr in ast.unparse(t) for t, pol, k in norm_guards(fn, st))
-                    returned = any(isinstance(r_, ast.Return) and r_.value is not None and attr in ast.unparse(r_.value) for r_ in fn.own_nodes())
-                    sources = sorted({y.attr for y in ast.walk(st.value) if isinstance(y, ast.Attribute) and isinstance(y.value, ast.Name) and y.value.id == "self" and y.attr != attr})
-                    reset_elsewhere = any(g is not fn and g.cls == fn.cls and any(
-                        isinstance(x, ast.Assign) and any(isinstance(t, ast.Attribute) and t.attr == attr and isinstance(t.value, ast.Name) and t.value.id == "self" for t in x.targets)
-                        for x in g.own_nodes()) for g in repo.all_fns())
-                    if guarded and returned and sources and not reset_elsewhere:
-                        counts["cache"] += 1
-                        obs.append(Ob("G7", clause, fn, st, False,
-                                      "%s memoises its answer in `self.%s` (computed from self.%s the first time only) and nothing ever resets it: after `obj.%s = ...` or an in-place edit the method "
-                                      "keeps returning the answer for the OLD value - and copy() carries the stale memo along" % (fn.qualname, attr, ", self.".join(sources), sources[0]),
-                                      slot="method-memo:%s" % fn.qualname, positive="robust"))
+        obs.extend(_method_memo(repo, clause, fn, counts, norm_guards))
         for n in fn.own_nodes():
             # (e) binary search needs a sorted sequence: a sequence taken in table order from a literal table whose numbers are not monotone
             if isinstance(n, ast.Call) and call_name(n) in ("bisect_left", "bisect_right", "bisect", "searchsorted", "insort", "insort_left", "insort_right") and n.args:
@@ -1307,7 +1369,8 @@ def G17_orientation_assumptions(repo, clause, scope=ALL_LIB):
         for c in [x for x in fn.own_nodes() if isinstance(x, ast.Compare) and len(x.ops) == 1 and isinstance(x.ops[0], (ast.Gt, ast.GtE, ast.Lt, ast.LtE))]:
             sides = [c.left, c.comparators[0]]
             dets = [e for e in sides if isinstance(e, ast.Call) and call_name(e) == "det"]
-            zero = [e for e in sides if const_value(e) == 0 and const_value(e) is not False]
+            # ... against zero or any numeric threshold (`det(cell) < 1e-8` as a "degenerate cell" test calls every left-handed cell degenerate)
+            zero = [e for e in sides if isinstance(const_value(e), (int, float)) and not isinstance(const_value(e), bool)]
             if len(dets) == 1 and len(zero) == 1:
                 n += 1
                 obs.append(Ob("G17", clause, fn, c, False,
@@ -1327,6 +1390,39 @@ def G17_orientation_assumptions(repo, clause, scope=ALL_LIB):
                     obs.append(Ob("G17", clause, fn, par, False,
                                   "`%s` in %s uses the SIGNED determinant as a volume: for a left-handed list of lattice vectors it is negative, and so is every length derived from it "
                                   "(face distances, windows) - abs() is missing" % (ast.unparse(par)[:50], fn.qualname), slot="det-signed-volume:%s" % fn.qualname, positive="robust"))
+        # (a3) the same for the triple product a . (b x c) written out: np.dot(a, np.cross(b, c)) - possibly through a table of the three face normals
+        def _is_cross(e, depth=3):
+            if isinstance(e, ast.Call) and call_name(e) == "cross":
+                return True
+            if depth <= 0:
+                return False
+            if isinstance(e, ast.Subscript) and isinstance(const_value(e.slice), int):
+                base = e.value
+                if isinstance(base, ast.Name):
+                    uv = fn.rd.unique_value(base) if fn.stmt_of(base) is not None else None
+                    base = uv[1] if uv is not None else base
+                if isinstance(base, ast.Call) and call_name(base) in ("array", "asarray", "stack", "vstack") and base.args:
+                    base = base.args[0]
+                if isinstance(base, (ast.List, ast.Tuple)) and 0 <= const_value(e.slice) < len(base.elts):
+                    return _is_cross(base.elts[const_value(e.slice)], depth - 1)
+            if isinstance(e, ast.Name) and fn.stmt_of(e) is not None:
+                uv = fn.rd.unique_value(e)
+                return uv is not None and _is_cross(uv[1], depth - 1)
+            return False
+        for d in [x for x in fn.own_nodes() if isinstance(x, ast.Call) and call_name(x) in ("dot", "vdot", "inner") and len(x.args) == 2 and any(_is_cross(a_) for a_ in x.args)]:
+            par = fn.parents.get(d)
+            if isinstance(par, ast.BinOp) and isinstance(par.op, ast.Div) and par.left is d and not any(
+                    isinstance(a, ast.Call) and call_name(a) in ("abs", "fabs", "absolute") for a in fn.ancestors(d)):
+                st = fn.stmt_of(d)
+                tgt = st.targets[0].id if isinstance(st, ast.Assign) and isinstance(st.targets[0], ast.Name) else None
+                later_abs = tgt is not None and any(isinstance(y, ast.Call) and call_name(y) in ("abs", "fabs", "absolute") and any(isinstance(z, ast.Name) and z.id == tgt for z in ast.walk(y))
+                                                   for y in fn.own_nodes())
+                if not later_abs:
+                    n += 1
+                    obs.append(Ob("G17", clause, fn, par, False,
+                                  "`%s` in %s divides the SIGNED triple product a . (b x c) by an area: for a left-handed list of lattice vectors the resulting widths are negative "
+                                  "(ceil(cutoff / width) <= 0: no neighbouring images at all) - abs() is missing" % (ast.unparse(par)[:60], fn.qualname),
+                                  slot="det-signed-volume:%s" % fn.qualname, positive="robust"))
         # (b)
         for a in [x for x in fn.own_nodes() if isinstance(x, ast.Assign) and len(x.targets) == 1 and isinstance(x.targets[0], ast.Name)
                   and any(isinstance(y, ast.Call) and call_name(y) == "uc_neighbor_offsets" for y in ast.walk(x.value))]:
@@ -1905,37 +2001,58 @@ def G26_any_of_indices(repo, clause, scope=ALL_LIB):
         for t in fn.all_nodes():
             if not isinstance(t, (ast.If, ast.IfExp, ast.While)):
                 continue
-            tst = t.test
-            while isinstance(tst, ast.UnaryOp) and isinstance(tst.op, ast.Not):
-                tst = tst.operand
-            arg = None
-            if isinstance(tst, ast.Call) and call_name(tst) in ("any", "all") and len(tst.args) == 1 and not tst.keywords and (
-                    isinstance(tst.func, ast.Name) or (isinstance(tst.func, ast.Attribute) and isinstance(tst.func.value, ast.Name) and tst.func.value.id in ("np", "numpy"))):
-                arg = tst.args[0]
-            elif isinstance(tst, ast.Call) and isinstance(tst.func, ast.Attribute) and tst.func.attr in ("any", "all") and not tst.args and not tst.keywords:
-                arg = tst.func.value
-            if arg is None:
-                continue
-            holder = fn
-            for f2 in repo.all_fns():
-                if f2.outer is fn and any(y is tst for y in ast.walk(f2.node)):
-                    holder = f2
-            kind = boolness(holder, arg)
-            if kind == "unknown" and isinstance(arg, ast.Name) and arg.id in holder.params:
-                used_as_data = any((isinstance(y, ast.Call) and call_name(y) == "len" and y.args and isinstance(y.args[0], ast.Name) and y.args[0].id == arg.id)
-                                   or (isinstance(y, ast.Subscript) and isinstance(y.value, ast.Name) and y.value.id == arg.id and isinstance(y.slice, ast.Tuple))
-                                   for y in ast.walk(holder.node))
-                used_as_mask = any(isinstance(y, ast.Subscript) and isinstance(y.slice, ast.Name) and y.slice.id == arg.id for y in ast.walk(holder.node))
-                if used_as_data and not used_as_mask:
-                    kind = "value"
-            if kind != "value":
-                continue
-            n += 1
-            obs.append(Ob("G26", clause, holder, tst, False,
-                          "`%s` in %s is used as a presence test, but it asks whether some VALUE of `%s` is non-zero: zeros are ordinary data there (an atom at the origin, a zero "
-                          "charge, a column of 0 entries), so existing data is treated as absent - the emptiness test is len(...) > 0" % (
-                              ast.unparse(tst)[:40], holder.qualname, ast.unparse(arg)[:30]),
-                          slot="any-of-data:%s:%s" % (holder.qualname, ast.unparse(arg)[:30]), positive="robust"))
+            # every operand of a conjunction / disjunction in the test is a presence test of its own (`not np.any(arr) or len(idx) == 0`)
+            stack_, leaves_ = [t.test], []
+            while stack_:
+                x_ = stack_.pop()
+                while isinstance(x_, ast.UnaryOp) and isinstance(x_.op, ast.Not):
+                    x_ = x_.operand
+                if isinstance(x_, ast.BoolOp):
+                    stack_.extend(x_.values)
+                else:
+                    leaves_.append(x_)
+            for tst in leaves_:
+                arg = None
+                if isinstance(tst, ast.Call) and call_name(tst) in ("any", "all") and len(tst.args) == 1 and not tst.keywords and (
+                        isinstance(tst.func, ast.Name) or (isinstance(tst.func, ast.Attribute) and isinstance(tst.func.value, ast.Name) and tst.func.value.id in ("np", "numpy"))):
+                    arg = tst.args[0]
+                elif isinstance(tst, ast.Call) and isinstance(tst.func, ast.Attribute) and tst.func.attr in ("any", "all") and not tst.args and not tst.keywords:
+                    arg = tst.func.value
+                if arg is None:
+                    continue
+                holder = fn
+                for f2 in repo.all_fns():
+                    if f2.outer is fn and any(y is tst for y in ast.walk(f2.node)):
+                        holder = f2
+                kind = boolness(holder, arg)
+                if kind == "unknown" and isinstance(arg, ast.Name) and arg.id in holder.params:
+                    used_as_data = any((isinstance(y, ast.Call) and call_name(y) == "len" and y.args and isinstance(y.args[0], ast.Name) and y.args[0].id == arg.id)
+                                       or (isinstance(y, ast.Subscript) and isinstance(y.value, ast.Name) and y.value.id == arg.id and isinstance(y.slice, ast.Tuple))
+                                       or (isinstance(y, ast.Compare) and len(y.ops) == 1 and isinstance(y.ops[0], (ast.Lt, ast.LtE, ast.Gt, ast.GtE))
+                                           and isinstance(y.left, ast.Name) and y.left.id == arg.id)      # ordered comparison of the elements: numbers, not flags
+                                       or (isinstance(y, ast.Call) and call_name(y) == "delete" and y.args and isinstance(y.args[0], ast.Name) and y.args[0].id == arg.id)
+                                       for y in ast.walk(holder.node))
+                    used_as_mask = any(isinstance(y, ast.Subscript) and isinstance(y.slice, ast.Name) and y.slice.id == arg.id for y in ast.walk(holder.node))
+                    if not used_as_data and not used_as_mask:
+                        # what do the callers hand in?  (methods: the receiver is not counted)
+                        pos_ = holder.params.index(arg.id) - (1 if holder.cls is not None and holder.params and holder.params[0] in ("self", "cls") else 0)
+                        kinds_ = set()
+                        for g_ in repo.all_fns():
+                            for c_ in g_.own_nodes():
+                                if isinstance(c_, ast.Call) and call_name(c_) == holder.name and 0 <= pos_ < len(c_.args):
+                                    kinds_.add(boolness(g_, c_.args[pos_]))
+                        if kinds_ == {"value"}:
+                            used_as_data = True
+                    if used_as_data and not used_as_mask:
+                        kind = "value"
+                if kind != "value":
+                    continue
+                n += 1
+                obs.append(Ob("G26", clause, holder, tst, False,
+                              "`%s` in %s is used as a presence test, but it asks whether some VALUE of `%s` is non-zero: zeros are ordinary data there (an atom at the origin, a zero "
+                              "charge, a column of 0 entries), so existing data is treated as absent - the emptiness test is len(...) > 0" % (
+                                  ast.unparse(tst)[:40], holder.qualname, ast.unparse(arg)[:30]),
+                              slot="any-of-data:%s:%s" % (holder.qualname, ast.unparse(arg)[:30]), positive="robust"))
     obs.append(Ob("G26", clause, fns[0], fns[0].node, True, "%d functions in scope, %d truth tests of index collections / data arrays flagged" % (len(fns), n), construct="index truthiness inventory", slot="inventory"))
     return obs
 
